@@ -4,13 +4,13 @@
 package main
 
 import (
-	"runtime/pprof"
 	"encoding/json"
 	"flag"
 	"fmt"
 	"os"
 	"path/filepath"
 	"runtime"
+	"runtime/pprof"
 	"sort"
 	"strings"
 	"time"
